@@ -2,14 +2,14 @@
 """Rewrites the seeded-change table in DESIGN.md from seeded/*/meta.json."""
 import json, os, re
 V = os.path.dirname(os.path.dirname(os.path.abspath(__file__)))
-rows = ["| seeded change | breaks | needs to manifest | caught by (quick tier) | note |", "|---|---|---|---|---|"]
+rows = ["| seeded change | round | breaks | needs to manifest | caught by (quick tier) | note |", "|---|---|---|---|---|---|"]
 for d in sorted(os.listdir(os.path.join(V, 'seeded'))):
     mp = os.path.join(V, 'seeded', d, 'meta.json')
     if not os.path.exists(mp):
         continue
     m = json.load(open(mp))
     esc = lambda t: t.replace('|', '\\|').replace('\n', ' ')
-    rows.append("| %s | %s | %s | %s | %s |" % (d, m['breaks_property'], esc(m['needs_to_manifest']), ', '.join(m['caught_by']) or '**none**', esc(m.get('notes', ''))))
+    rows.append("| %s | %s | %s | %s | %s | %s |" % (d, m.get('round', 1), m['breaks_property'], esc(m['needs_to_manifest']), ', '.join(m['caught_by']) or '**none**', esc(m.get('notes', ''))))
 p = os.path.join(V, 'DESIGN.md'); s = open(p).read()
 s = re.sub(r'<!-- SEED-TABLE-BEGIN -->.*<!-- SEED-TABLE-END -->', '<!-- SEED-TABLE-BEGIN -->\n' + '\n'.join(rows) + '\n<!-- SEED-TABLE-END -->', s, flags=re.S)
 open(p, 'w').write(s)
